@@ -5,7 +5,7 @@
    evaluated on the implementation's own observations. *)
 From Coq Require Import List NArith ZArith Bool String Ascii Strings.Byte.
 From FwdLib Require Import Bytes.
-From G03 Require Import Tables Tunnel Abstract Weak ReplyReader Switchover Socks Deadlines.
+From G03 Require Import Tables Tunnel Abstract Weak ReplyReader Switchover Socks Lookup Deadlines.
 Import ListNotations.
 Open Scope N_scope.
 
@@ -342,3 +342,10 @@ Definition arefusal (c : acase) : option N :=
 (* native scenarios (production listener and dialer, no wrappers): oracle only *)
 Definition nmodel_ok (o : aobs) : bool := true.
 Definition nprop_ok (o : aobs) : bool := aobs_prop o.
+
+(* ---- CloseWrite lookup (close.go asCloseWriter / reflectx.LookupImpl) ---- *)
+(* l_tree: the value as reflection presents it; l_found: what the real LookupImpl[closeWriter] answered;
+   l_must: a connection a tunnel's copier really writes to (half-close must work on it) *)
+Record lcase := { l_tree : val; l_found : bool; l_must : bool }.
+Definition lmodel_ok (c : lcase) : bool := Bool.eqb (as_close_writer (l_tree c)) (l_found c).
+Definition lprop_ok (c : lcase) : bool := implb (l_must c) (l_found c).
